@@ -81,3 +81,66 @@ Definition one_lock (m : string) (l : list lev) : bool :=
                     end) l.
 Definition all_one_lock (m : string) (ms : list (string * list lev)) : bool :=
   forallb (fun x => is_init (fst x) || one_lock m (snd x)) ms.
+
+(* ---- path lists: the extractor enumerates every control-flow path of a method (an early
+   return forks a path, a deferred unlock is run by the paths that passed the defer) ---- *)
+Definition paths_disciplined (ps : list (list lev)) : bool := forallb disciplined ps.
+Definition paths_one_lock (m : string) (ps : list (list lev)) : bool := forallb (one_lock m) ps.
+Definition paths_touch (ps : list (list lev)) : bool := existsb touches ps.
+
+Definition all_paths_disciplined (ms : list (string * list (list lev))) : bool :=
+  forallb (fun x => is_init (fst x) || paths_disciplined (snd x)) ms.
+Definition all_paths_one_lock (m : string) (ms : list (string * list (list lev))) : bool :=
+  forallb (fun x => is_init (fst x) || paths_one_lock m (snd x)) ms.
+Definition all_paths_touch (ms : list (string * list (list lev))) : bool :=
+  forallb (fun x => paths_touch (snd x)) ms.
+Definition has_path_methods (names : list string) (ms : list (string * list (list lev))) : bool :=
+  forallb (fun n => existsb (fun m => String.eqb n (fst m)) ms) names.
+
+(* ---- small helpers for the other fact topics ---- *)
+Fixpoint index_of (a : string) (l : list string) : option nat :=
+  match l with
+  | [] => None
+  | x :: r => if String.eqb a x then Some 0 else option_map S (index_of a r)
+  end.
+(* a is applied before b (so b wraps a) in a list of constructors in program order *)
+Definition before (a b : string) (l : list string) : bool :=
+  match index_of a l, index_of b l with
+  | Some i, Some j => Nat.ltb i j
+  | _, _ => false
+  end.
+Definition starts_with (p s : string) : bool := String.prefix p s.
+(* channel capacity classes written by the extractor: "unbuffered" | "lit:<n>" | "expr:<text>" *)
+Definition same_expr_caps (n : nat) (caps : list string) : bool :=
+  match caps with
+  | [] => false
+  | c :: r => starts_with "expr:" c && forallb (String.eqb c) r && Nat.eqb (List.length caps) n
+  end.
+Definition pair_eqb (a b : string * string) : bool := String.eqb (fst a) (fst b) && String.eqb (snd a) (snd b).
+Definition all_derived (l : list (string * string)) : bool :=
+  negb (Nat.eqb (List.length l) 0) && forallb (fun p => String.eqb (snd p) "derived") l.
+
+(* a method that makes two or more self-locking calls on a path is a compound operation
+   (check-then-act): all of them must sit inside ONE critical section - no call before the lock is
+   taken, none after it is released, no unlock in between *)
+Definition is_safecall (e : lev) : bool := match e with LSafeCall _ _ => true | _ => false end.
+Definition is_lockop (e : lev) : bool :=
+  match e with LLock _ | LUnlock _ | LRLock _ | LRUnlock _ => true | _ => false end.
+Fixpoint drop_until_call (l : list lev) : list lev :=
+  match l with
+  | [] => []
+  | e :: r => if is_safecall e then l else drop_until_call r
+  end.
+Fixpoint locked_before_first_call (h : held) (l : list lev) : bool :=
+  match l with
+  | [] => true
+  | e :: r => if is_safecall e then match h with HNone => false | _ => true end
+              else match lev_step h e with Some h' => locked_before_first_call h' r | None => false end
+  end.
+Definition calls_atomic (l : list lev) : bool :=
+  if Nat.leb (List.length (filter is_safecall l)) 1 then true
+  else
+    let mid := rev (drop_until_call (rev (drop_until_call l))) in   (* first call .. last call *)
+    negb (existsb is_lockop mid) && locked_before_first_call HNone l.
+Definition all_paths_calls_atomic (ms : list (string * list (list lev))) : bool :=
+  forallb (fun x => is_init (fst x) || forallb calls_atomic (snd x)) ms.
